@@ -288,12 +288,27 @@ class World:
         except TaskHung:
             self._classify_hang(t)
             raise
+        if t.abandoned and self.manager_crash is not None:
+            raise self.manager_crash
         if t.done:
             self.mgr_state = "dead"
             self._raise_if_crashed()
             if getattr(self, "round_cap_hit", False):
                 raise SimStall(f"run exceeded the cap of {self.max_rounds} manager rounds")
         return self.mgr_state
+
+    def manager_livelock(self, conn, n):
+        """Called on the manager thread: it reads end-of-stream from one connection over and over without ever
+        returning to select.  The thread is parked for good and the run ends as a manager that serves nobody."""
+        t = self.mgr_task
+        if self.baton.current is not t:
+            return
+        self.manager_crash = ManagerSpins(conn, n)
+        self.net.log("MGR_SPINS", conn)
+        t.abandoned = True
+        self.mgr_state = "dead"
+        self.baton.switch(self.baton.main)      # never scheduled again
+        raise SimShutdown()
 
     def _classify_hang(self, t):
         """The manager did not come back within the wall limit.  If its stack is inside the code under test and
